@@ -160,6 +160,8 @@ pub struct Env {
     pub sids: Vec<u32>,
     shared: Arc<Shared>,
     flush_no: u64,
+    /// sessions that ran to completion (senders of e2e cases); the executor keeps them in its table
+    finished: Vec<u32>,
 }
 
 fn actions(shared: &Arc<Shared>) -> ActionWrapper {
@@ -199,7 +201,7 @@ impl Env {
             .map_err(|e| e.to_string())?;
         let executor = rt.block_on(FsmExecutor::new_with_io_processor());
         let shared: Arc<Shared> = Arc::new(Shared::default());
-        let mut env = Env { _rt: rt, executor, sessions: vec![], sids: vec![], shared, flush_no: 0 };
+        let mut env = Env { _rt: rt, executor, sessions: vec![], sids: vec![], shared, flush_no: 0, finished: vec![] };
         for _ in 0..n_sessions {
             env.add_receiver()?;
         }
@@ -513,7 +515,8 @@ fn encode_fields(p: &mut Prng, fields: &[(Vec<u8>, Vec<u8>)], noise: bool) -> Ve
 fn gen_seg(p: &mut Prng, sids: &[u32]) -> (String, &'static str) {
     let sid = *p.pick(sids);
     match p.below(20) {
-        0 => ((sids.iter().max().unwrap() + 1 + p.below(1000) as u32).to_string(), "seg_unknown"),
+        // far from anything the executor allocated (finished sender sessions stay in its table)
+        0 => ((1_000_000 + p.below(1_000_000) as u32).to_string(), "seg_unknown"),
         1 => ("0".to_string(), "seg_unknown"),
         2 => (p.pick(&["4294967295", "4294967296", "99999999999999999999", "-1", "abc", "1x", "x1", "1.0", "0x1", "%31"]).to_string(), "seg_malformed"),
         3 => (format!("+{}", sid), "seg_plus"),
@@ -593,7 +596,7 @@ pub fn gen_post(p: &mut Prng, sids: &[u32], tag: u64) -> PostCase {
 fn post_corpus(sids: &[u32]) -> Vec<PostCase> {
     let s0 = sids[0].to_string();
     let s1 = sids[1].to_string();
-    let unknown = (sids.iter().max().unwrap() + 777).to_string();
+    let unknown = (sids.iter().max().unwrap() + 777_000).to_string();
     let mk = |seg: &str, body: &str, kind: &str| PostCase { seg: seg.to_string(), body: body.as_bytes().to_vec(), kind: format!("corpus {}", kind), tag: None };
     vec![
         mk(&s0, "_scxmleventname=ev", "name only"),
@@ -877,6 +880,34 @@ fn check_outside(env: &mut Env, rep: &mut Report) {
             rep.disagree(json!({"origin": "corpus", "what": format!("request outside the model: {}", what), "status": format!("{:?}", st),
                 "events": evs.iter().map(|o| o.to_json()).collect::<Vec<_>>(), "expected": expect.map(|o| o.to_json())}));
         }
+    }
+}
+
+/// `FsmExecutor::remove_session` is never called by the crate: a session that ran to completion stays
+/// in the executor's table, and a POST naming it is still answered 200 (its queue takes the event, nobody
+/// reads it).  The model agrees when the finished id is part of the table; nothing may reach a live session.
+fn check_finished(env: &mut Env, model: &mut Model, rep: &mut Report) {
+    let Some(&fin) = env.finished.last() else { return };
+    rep.evaluations += 1;
+    rep.count("finished_session_cases");
+    let body = b"_scxmleventname=late&p=1";
+    let st = http_post(&fin.to_string(), body, Some("application/x-www-form-urlencoded"));
+    if let Err(e) = env.flush() {
+        rep.disagree(json!({"origin": "corpus", "machinery": e}));
+        return;
+    }
+    let evs = env.take_events();
+    let mut table = env.sids.clone();
+    table.push(fin);
+    let reply = model.ask(&format!("http post {} {} {}", sids_wire(&table), hex(fin.to_string().as_bytes()), hex(body)));
+    let m = parse_post_reply(&reply);
+    let ok = match (&st, &m) {
+        (Ok(s), Some((ms, mev))) => s == ms && mev.len() == 1 && mev[0].sid == fin && evs.is_empty(),
+        _ => false,
+    };
+    if !ok {
+        rep.disagree(json!({"origin": "corpus", "what": "POST to a session that has finished", "status": format!("{:?}", st),
+            "model": reply, "events_at_live_sessions": evs.iter().map(|o| o.to_json()).collect::<Vec<_>>()}));
     }
 }
 
@@ -1364,10 +1395,36 @@ fn check_e2e(env: &mut Env, model: &mut Model, rep: &mut Report, c: &E2eCase, or
             return;
         }
     };
+    // model: what `send` emits, fed to `receive`
+    let reply = model.ask(&format!("http sendbody {}", c.send.model_args()));
+    let body = match reply.split(' ').next().and_then(unhex) {
+        Some(b) => b,
+        None => {
+            rep.disagree(json!({"origin": origin, "case": c.to_json(), "machinery": format!("model reply {}", reply)}));
+            return;
+        }
+    };
+    let preply = model.ask(&format!("http post {} {} {}", sids_wire(&env.sids), hex(rsid.to_string().as_bytes()), hex(&body)));
+    let (mst, mut mev) = match parse_post_reply(&preply) {
+        Some(x) => x,
+        None => {
+            rep.disagree(json!({"origin": origin, "case": c.to_json(), "machinery": format!("model reply {}", preply)}));
+            return;
+        }
+    };
     let mut session = fsm::start_fsm_with_data_and_finish_mode(fsm, actions(&env.shared), Box::new(env.executor.clone()), &[], FinishMode::DISPOSE);
-    // the send runs in onentry of the initial state; `quit` is queued behind it
+    env.finished.push(session.session_id);
+    // the send runs in onentry of the initial state; `quit` is queued behind it.  A delayed send is
+    // fired by the session's timer: wait for the arrival (or, when none is expected, a fixed time)
     if c.delay_ms > 0 {
-        std::thread::sleep(Duration::from_millis(c.delay_ms as u64 + 60));
+        let t0 = Instant::now();
+        let limit = if mev.is_empty() { Duration::from_millis(c.delay_ms as u64 + 300) } else { Duration::from_secs(10) };
+        while t0.elapsed() < limit {
+            if !mev.is_empty() && !env.shared.events.lock().unwrap().is_empty() {
+                break;
+            }
+            std::thread::sleep(Duration::from_millis(2));
+        }
     }
     let _ = session.sender.send(Box::new(Event::new_simple("quit")));
     if let Some(h) = session.thread.take() {
@@ -1389,24 +1446,7 @@ fn check_e2e(env: &mut Env, model: &mut Model, rep: &mut Report, c: &E2eCase, or
     }
     let mut got = env.take_events();
     got.sort();
-    // model: what `send` emits, fed to `receive`
-    let reply = model.ask(&format!("http sendbody {}", c.send.model_args()));
-    let body = match reply.split(' ').next().and_then(unhex) {
-        Some(b) => b,
-        None => {
-            rep.disagree(json!({"origin": origin, "case": c.to_json(), "machinery": format!("model reply {}", reply)}));
-            return;
-        }
-    };
     rep.nontrivial.insert(format!("e2e|{}|{}{}{}", hex(&body), c.short_type, c.target_expr, c.event_expr));
-    let preply = model.ask(&format!("http post {} {} {}", sids_wire(&env.sids), hex(rsid.to_string().as_bytes()), hex(&body)));
-    let (mst, mut mev) = match parse_post_reply(&preply) {
-        Some(x) => x,
-        None => {
-            rep.disagree(json!({"origin": origin, "case": c.to_json(), "machinery": format!("model reply {}", preply)}));
-            return;
-        }
-    };
     mev.sort();
     if mev != got {
         rep.disagree(json!({"origin": origin, "case": c.to_json(), "doc": doc,
@@ -1499,6 +1539,7 @@ pub fn run(args: &Args, model: &mut Model) -> Report {
     for c in e2e_corpus() {
         check_e2e(&mut env, model, &mut rep, &c, "corpus");
     }
+    check_finished(&mut env, model, &mut rep);
 
     // generated posts: batches from several threads
     let (nbatches, nsend, ne2e) = if args.thorough { (9000, 12000, 4000) } else { (300, 500, 200) };
